@@ -85,7 +85,9 @@ class PACTAct(Quantizer):
         :return: the scale factor
         :rtype: torch.Tensor
         """
-        return self.clip_val.data[0] / (2 ** self.precision - 1)
+        # same stabilized clipping value used in the forward pass, so that the fake-quantized
+        # output is exactly the integer output times this scale
+        return (self.clip_val.data[0] + 1e-3) / (2 ** self.precision - 1)
 
     def summary(self) -> Dict[str, Any]:
         """Export a dictionary with the optimized layer quantization hyperparameters
@@ -219,7 +221,10 @@ class PACTActSigned(Quantizer):
         :return: the scale factor
         :rtype: torch.Tensor
         """
-        return (self.clip_val_sup.data[0] - self.clip_val_inf.data[0]) / (2 ** self.precision - 1)
+        # same stabilized range used in the forward pass, so that the fake-quantized output is
+        # exactly the integer output times this scale
+        return (self.clip_val_sup.data[0] - self.clip_val_inf.data[0] + 1e-3) / \
+            (2 ** self.precision - 1)
 
     def summary(self) -> Dict[str, Any]:
         """Export a dictionary with the optimized layer quantization hyperparameters
